@@ -1,6 +1,6 @@
 (* the generated tables meet every table-condition Record of layer L2 *)
 From stdpp Require Import list numbers option.
-From L2 Require Import Model Base Own Jobs Wake WakeInv Term GenTables.
+From L2 Require Import Model Base Own Jobs Wake WakeInv Term GenTables ZeroInv.
 From Gen Require Import Tables.
 
 Lemma gen_own_cond : own_cond gen_ftables.
@@ -57,3 +57,14 @@ Qed.
 Theorem gen_all_cond : all_cond gen_ftables.
 Proof. split; [apply gen_own_cond|apply gen_jobs_cond|apply gen_wake_cond]. Qed.
 Print Assumptions gen_all_cond.
+
+(* the extra conditions used by the zero-pool theorem (ZeroInv.zero_cond) *)
+Lemma gen_zero_cond : zero_cond gen_ftables.
+Proof.
+  split; cbn.
+  - intros st H. by destruct st.
+  - intros f. cbn. by rewrite Nat.eqb_refl.
+  - intros f st st' H. destruct st; cbn in H; try (inversion H; fail); try (left; reflexivity); try (right; left; reflexivity).
+    destruct (f0 =? f) eqn:E; inversion H. right; right. exists f0. split; [|done]. by apply Nat.eqb_neq in E.
+Qed.
+Print Assumptions gen_zero_cond.
